@@ -189,6 +189,14 @@ func init() {
 	}
 	caseFn := func(name string) stdHandler {
 		return func(e *Engine, fc *fnCtx, st *State, c *ssa.CallCommon, a []Val, r types.Type) (Val, bool) {
+			if strings.HasPrefix(a[0].T, "\"") && !strings.Contains(a[0].T, "\\u{") {
+				// constant argument: evaluate
+				lit := strings.ReplaceAll(a[0].T[1:len(a[0].T)-1], "\"\"", "\"")
+				if name == "strlower" {
+					return Val{T: smtString(strings.ToLower(lit)), S: "String", GoT: tString}, true
+				}
+				return Val{T: smtString(strings.ToUpper(lit)), S: "String", GoT: tString}, true
+			}
 			e.sc.declareFun(name, []string{"String"}, "String")
 			t := "(" + name + " " + a[0].T + ")"
 			e.assume(st, and("(= (str.len "+t+") (str.len "+a[0].T+"))", "(= ("+name+" "+t+") "+t+")"))
